@@ -21,7 +21,7 @@ META = dict(
                  'no commodity format directives in the generated journals'],
 )
 
-SYMBOLS = ['$', 'EUR', 'AAA', '€', '₹', 'Ünit', 'M&M 2', 'K-9', 'x y', 'GBP', 'BTC', 'q1', '£']
+SYMBOLS = ['$', 'EUR', 'AAA', '€', '₹', 'Ünit', 'M&M 2', 'K-9', 'x y', 'GBP', 'BTC', 'q1', '£', 'A1']
 
 
 def needs_quote(sym):
@@ -104,7 +104,8 @@ def render(ws):
     return '\n'.join(lines)
 
 
-FMT = '%(account)|%(quoted(amount))|%(verif_rational(amount))|%(quoted(amount/7))|%(verif_rational(amount/7))|%(quoted(amount*0.333))|%(verif_rational(amount*0.333))\\n'
+FMT = ('%(account)|%(quoted(amount))|%(verif_rational(amount))|%(quoted(amount/7))|%(verif_rational(amount/7))|%(quoted(amount*0.333))|'
+       '%(verif_rational(amount*0.333))|%(justify(amount, 0, 0, false, false))\\n')      # the last field: as report columns show it
 
 
 def hexs(s):
@@ -150,7 +151,7 @@ def shown_number(text, sym, dcomma):
 def run(ctx, n_override=None):
     rng = ctx.rng
     res = lib.Result()
-    res.rule = ('journals of 20-60 posting amounts over 1-3 commodities drawn from 13 symbols (plain, non-ASCII, quoted with '
+    res.rule = ('journals of 20-60 posting amounts over 1-3 commodities drawn from 14 symbols (plain, non-ASCII, quoted with '
                 'space/digits/punctuation) x prefix/suffix x separated x thousands marks x decimal comma x 0-12 decimals x '
                 '1-15 integer digits x sign; each amount also divided by 7 and multiplied by 0.333 so that the internal '
                 'precision exceeds the display precision; non-trivial = the reader accepted it and either rounding was needed '
@@ -193,7 +194,7 @@ def run(ctx, n_override=None):
                 res.count('impl:rejected')
             else:
                 r = rows[i]
-                impl = '|'.join([hexs(r[0]), r[1], hexs(r[2]), r[3], hexs(r[4]), r[5]])
+                impl = '|'.join([hexs(r[0]), r[1], hexs(r[2]), r[3], hexs(r[4]), r[5], hexs(r[6])])
                 res.count('impl:printed')
             res.traces += 1
             if impl != m:
@@ -238,6 +239,16 @@ def run(ctx, n_override=None):
                     res.nontrivial.add(txt + '|' + rat)
                 if k == 0:
                     printed.append((i, txt, exact, w.sym))
+                    # report columns (justify(), the default bal/reg formats) may drop the quotes of an unusual symbol, but only
+                    # where the text stays unambiguous: the symbol set apart from the number by a space and free of spaces itself
+                    col = r[6]
+                    if col != txt:
+                        res.count('column:quotes-elided')
+                        ok = (needs_quote(w.sym) and ' ' not in w.sym and col == txt.replace('"%s"' % w.sym, w.sym)
+                              and (col.endswith(' ' + w.sym) or col.startswith(w.sym + ' '))) or (col == '0' and shown == 0)
+                        if not ok:
+                            res.violations.append(dict(key='column:quotes-dropped', desc='a report column shows %r for %r: not the learned style, and no longer denotes %s %s' % (col, txt, exact, w.sym),
+                                                       case=dict(journal=render(ws)), observed=col, required=txt))
         reread_jobs.append((j, printed, cp))
     # ---- re-read oracle: ledger must accept its own full-precision text and get the same quantity
     for j, printed, cp in reread_jobs[:ctx.scale(40, 400)]:
